@@ -176,6 +176,31 @@ def clause_message_key(prog, rep):
     rep.floor("message-key", "memory methods returning messages", n, 4)
 
 
+def clause_filter_before_page(prog, rep):
+    """a paginated listing of the memory backend selects first and pages afterwards, as `WHERE ... LIMIT ? OFFSET ?` does: a
+    skip/take applied before the selecting filter makes filtered-out records occupy page slots (short or empty pages, skipped records)"""
+    n = 0
+    for f in prog.nontest_fns(("mdk_memory_storage",)):
+        if f.is_closure() or not f.impl_trait or not (f.impl_trait or "").startswith("mdk_storage_traits::"):
+            continue
+        pages = [c for c in f.live_calls() if c.name in ("skip", "take") and last_seg(c.trait) == "Iterator"]
+        filts = [c for c in f.live_calls() if c.name in ("filter", "filter_map") and last_seg(c.trait) == "Iterator"]
+        if not pages or not filts:
+            continue
+        n += 1
+        late = []
+        for fl in filts:
+            if fl.args and "p" in fl.args[0]:
+                _, calls, _ = f.depends_on(fl.args[0]["p"][0])
+                if any(x in pages for x in calls):
+                    late.append(fl)
+        rep.check(not late, "pagination", "memory/%s/filter-before-page" % f.name,
+                  "records are selected before the page is cut (as SQL applies WHERE before LIMIT / OFFSET)",
+                  "a selecting filter runs on an already paged iterator (skip/take before filter): records that are filtered out occupy "
+                  "page slots, unlike the SQLite sibling's WHERE ... LIMIT ... OFFSET", late[0].loc() if late else f.loc())
+    rep.floor("pagination", "memory listings that filter and page", n, 1)
+
+
 def run(ctx, rep):
     prog = ctx.prog()
     sch = sqlmod.Schema()
@@ -202,3 +227,4 @@ def run(ctx, rep):
     clause_message_key(prog, rep)
     c18.clause_orders(prog, rep, sch, sites)
     c18.clause_pagination(prog, rep)
+    clause_filter_before_page(prog, rep)
